@@ -66,9 +66,12 @@ pub async fn send_authentication<W: AsyncWriteExt + Unpin>(
     let padding_sizes = padding_factory.generate_record_payload_sizes(0);
     let padding_len = padding_sizes.first().copied().unwrap_or(0);
 
-    // Ensure padding_len is non-negative
+    // Ensure padding_len is non-negative and fits the 16-bit length field
+    // (a larger scheme value is clamped, never wrapped)
     let padding_len = if padding_len < 0 {
         0
+    } else if padding_len > u16::MAX as i32 {
+        u16::MAX
     } else {
         padding_len as u16
     };
